@@ -5,6 +5,7 @@
 package fakeipfs
 
 import (
+	"bytes"
 	"context"
 	"errors"
 	"fmt"
@@ -12,10 +13,11 @@ import (
 	"sync/atomic"
 
 	"github.com/ipfs/go-cid"
-	cbornode "github.com/ipfs/go-ipld-cbor"
 	format "github.com/ipfs/go-ipld-format"
 	merkledag "github.com/ipfs/go-merkledag"
 	coreiface "github.com/ipfs/kubo/core/coreiface"
+	"github.com/ipld/go-ipld-prime/codec/dagcbor"
+	basicnode "github.com/ipld/go-ipld-prime/node/basic"
 	mh "github.com/multiformats/go-multihash"
 )
 
@@ -162,11 +164,13 @@ func (s *Store) PutBytes(codec uint64, data []byte) cid.Cid {
 func Decode(c cid.Cid, data []byte) (format.Node, error) {
 	switch c.Type() {
 	case cid.DagCBOR:
-		n, err := cbornode.Decode(data, c.Prefix().MhType, c.Prefix().MhLength)
-		if err != nil {
+		// kubo's DAG service decodes dag-cbor blocks with go-ipld-prime and hands
+		// out a node whose RawData() is the stored bytes.
+		nb := basicnode.Prototype.Any.NewBuilder()
+		if err := dagcbor.Decode(nb, bytes.NewReader(data)); err != nil {
 			return nil, err
 		}
-		return n, nil
+		return rawNode{c: c, data: data}, nil
 	case cid.DagProtobuf:
 		n, err := merkledag.DecodeProtobuf(data)
 		if err != nil {
